@@ -231,6 +231,13 @@ CvSplitTake ==
 (* left unchanged (an abstraction; such transitions are leaves of the search).  *)
 RetRel(cls, val, rel) == [class |-> cls, val |-> val, rel |-> rel]
 
+(* split at any number of nodes and join ALL the pieces back, left to right: p1 | p2 | ... | pk is the curve again *)
+(* (as a function; the junctions may keep extra knots).  Judged as a SameFunction event.                          *)
+CvSplitJoin ==
+  \E a \in ArgsOf("CvSplitJoin", heap, depth) :
+     Step([name |-> "CvSplitJoin"] @@ a, heap, RetRel("ok", Len(SplitPieces(AsCurve(heap[a.obj]), a.nodes)), "sem"))
+
+
 CvKnotRemove ==
   \E a \in ArgsOf("CvKnotRemove", heap, depth) :
      LET c == AsCurve(heap[a.obj]) IN
@@ -459,7 +466,7 @@ Next == /\ depth < MaxDepth
            \/ KvSetDegree \/ KvIOr \/ KvIAnd \/ KvOr \/ KvAnd \/ KvSplit \/ KvCopy \/ KvValueOp \/ KvEq
            \/ CvEval \/ FnBasis \/ CvKnotInsert \/ CvDegreeIncrease \/ CvSplit
            \/ CvKnotRemove \/ CvDegreeDecrease \/ CvClean \/ CvJoin \/ CvArith \/ CvScalar
-           \/ CvEq \/ CvCopy \/ CvFraction \/ CvSetCtrlpoints \/ CvSetWeights \/ CvSetKnotvector \/ CvSplitTake \/ KvConvert
+           \/ CvSplitJoin \/ CvEq \/ CvCopy \/ CvFraction \/ CvSetCtrlpoints \/ CvSetWeights \/ CvSetKnotvector \/ CvSplitTake \/ KvConvert
            \/ KvGen \/ CvDerivate \/ CvIntegrate \/ MemoRequest \/ CvFitCurve \/ CvFitInRational \/ CvFitPoints \/ CvFitFunction
            \/ GeoProject \/ GeoIntersect \/ IntegrateFn \/ GeoLength \/ GeoProjectOn \/ GeoIntersectCurved
 
